@@ -38,6 +38,26 @@ def traces():
            {"op": "click_target", "slide": 0, "shape": 0, "target": 1}, {"op": "observe"}, {"op": "click_target", "slide": 0, "shape": 0, "target": None},
            {"op": "click_target", "slide": 0, "shape": 0, "target": 1}, ck, {"op": "restart"}]
     out.append(T("set-clear-set-same-target", [{"deck": "default"}], evs))
+    # the same for slide jumps: three shapes jump to one slide; one re-targeted, one cleared, the last cleared
+    evs = [{"op": "add_slide", "layout": 6}, {"op": "add_slide", "layout": 6}, {"op": "add_slide", "layout": 6}] + [dict(box, op="add_shape", slide=0, type=1) for _ in range(3)]
+    evs += [{"op": "click_target", "slide": 0, "shape": i, "target": 1} for i in range(3)]
+    evs += [ck, {"op": "click_target", "slide": 0, "shape": 1, "target": 2}, ck, {"op": "restart"}, {"op": "click_target", "slide": 0, "shape": 0, "target": None}, ck,
+            {"op": "click_hyperlink", "slide": 0, "shape": 0, "addr": U}, ck, {"op": "click_target", "slide": 0, "shape": 2, "target": None}, ck, {"op": "restart"}]
+    out.append(T("shared-jump-target-refcount", [{"deck": "default"}], evs))
+    # other part families numbered by another producer (holes below the maximum, number 1 free), then ordinary allocations in each
+    img_ = {"fmt": "PNG", "w": 3, "h": 3, "seed": 9, "mode": "RGB", "dpi": None}
+    cd_ = {"kind": "cat", "cat_type": "str", "categories": ["a", "b"], "series": [{"name": "s", "values": [1, 2]}]}
+    alloc = [dict(box, op="add_chart", slide=0, type="BAR_CLUSTERED", data=cd_), dict(box, op="add_chart", slide=0, type="PIE", data=cd_),
+             dict(box, op="add_ole", slide=0, blob={"seed": 1, "len": 30}, src={"via": "stream", "pos": 0}, prog="XLSX", icon=None, isrc={"via": "stream", "pos": 0}, sized=False),
+             {"op": "notes_access", "slide": 0}, {"op": "notes_access", "slide": 1},
+             dict(box, op="add_picture", slide=0, img=img_, src={"via": "stream", "pos": 0}, size="none"),
+             dict(box, op="add_picture", slide=0, img=dict(img_, seed=10), src={"via": "stream", "pos": 0}, size="none")]
+    for deck in ("f-cht-legend.pptx", "f-cht-chart-props.pptx", "f-sld-notes.pptx", "f-prs-notes.pptx", "f-shp-shapes.pptx", "f-ph-populated-placeholders.pptx",
+                 "f-prs-slide-masters.pptx", "t-test_slides.pptx"):
+        for mode in ("odd", "shift", "sparse"):
+            xf = [{"kind": "renumber", "family": fam, "mode": mode, "seed": 3} for fam in ("charts", "themes", "notes", "media", "embeddings")]
+            out.append(T("renumbered-families-then-allocate-%s-%s" % (deck, mode), [{"deck": deck, "xform": xf}],
+                         [{"op": "add_slide", "layout": 1}] + alloc + [ck, {"op": "restart"}] + alloc[:3] + [ck, {"op": "restart"}]))
     # non-contiguous / out-of-order slide part names, then additions (next slide partname must not collide)
     for deck in ("f-sld-slides.pptx", "t-test_slides.pptx", "f-prs-add-slide.pptx", "f-shp-shapes.pptx"):
         for mode in ("reverse", "rotate", "gaps", "shuffle", "lastfits", "firstbig"):
